@@ -45,6 +45,9 @@ type Manifest struct {
 	// whole chain, so inheritance merges the files into exactly these lists); Requirement.Level
 	// says which file declares an entry.
 	Chain *PomChain `json:"chain,omitempty"`
+	// Profile (Maven only): some of the manifest's own <dependencies> entries are declared inside
+	// a profile that is active by default (see pom_profile.go). Deps stays the effective list.
+	Profile *PomProfile `json:"profile,omitempty"`
 }
 
 // PomChain places a Maven manifest below one or two local parent poms.
@@ -276,10 +279,13 @@ func (m Manifest) pomSections(b *strings.Builder, level int) {
 			mgmt = append(mgmt, d)
 		}
 	}
-	for _, d := range m.Deps {
-		if m.level(d) == level {
+	for i, d := range m.Deps {
+		if m.level(d) == level && !m.inProfile(i) {
 			deps = append(deps, d)
 		}
+	}
+	if level == 0 {
+		m.pomTopProperties(b)
 	}
 	if len(mgmt) > 0 {
 		b.WriteString("  <dependencyManagement>\n    <dependencies>\n")
@@ -353,8 +359,19 @@ func (m Manifest) renderPOM() []byte {
 		fmt.Fprintf(&b, "  <groupId>%s</groupId>\n  <artifactId>%s</artifactId>\n  <version>%s</version>\n", xmlEsc(g), xmlEsc(a), xmlEsc(m.Version))
 	}
 	m.pomSections(&b, 0)
+	active := m.profileFirst() >= 0
+	if active {
+		b.WriteString("  <profiles>\n")
+		m.pomActiveProfile(&b)
+		if !m.InertProfile {
+			b.WriteString("  </profiles>\n")
+		}
+	}
 	if m.InertProfile {
-		b.WriteString("  <profiles>\n    <profile>\n      <id>verif-inert</id>\n      <dependencyManagement>\n        <dependencies>\n")
+		if !active {
+			b.WriteString("  <profiles>\n")
+		}
+		b.WriteString("    <profile>\n      <id>verif-inert</id>\n      <dependencyManagement>\n        <dependencies>\n")
 		pomDep(&b, "          ", Requirement{Name: "org.verif.unrelated:nothing", Req: "1.0.0"})
 		b.WriteString("        </dependencies>\n      </dependencyManagement>\n    </profile>\n  </profiles>\n")
 	}
